@@ -236,8 +236,9 @@ def check_case(ref, W, fs, s, baseline=None):
         # no reference answer is defined for this shape (C09 speaks of '>' at one position of every unfolded form); the Finders
         # still have to agree with each other on it
         names = W.names
-        on_disk = {e for e in ans["all"] if e in W.store.paths}      # (constants-backed levels without folder are FindInAll's alone)
-        if not (ans[names[0]] == ans[names[-1]] == on_disk and ans["all"] == ans.get("all:named", ans["all"])):
+        # (compared on the types that only the file system serves: a constants-backed level is FindInAll's alone)
+        po = lambda S: {e for e in S if W.ref.natural(e)[0] not in W.sources}
+        if not (po(ans[names[0]]) == po(ans[names[-1]]) == po(ans["all"]) and ans["all"] == ans.get("all:named", ans["all"])):
             bad("finders-disagree/last-lost-in-some-typed-forms", {k: sorted(v)[:3] for k, v in ans.items()}, "one answer")
         return out, "last-not-at-one-common-position(outside statement)", ans
     names = W.names
